@@ -244,7 +244,110 @@ fn collect_scans(
     for child in plan.children() {
         collect_scans(ctx, child, required)?;
     }
+    // `children()` does not enter expressions. A subquery the optimizer left as
+    // an expression (a scalar subquery in a SELECT list, WHERE, HAVING or CASE;
+    // an EXISTS / IN it could not turn into a join) carries a plan of its own,
+    // and the re-bound statement needs its tables and columns too.
+    for sub in node_subqueries(plan) {
+        collect_scans(ctx, &sub, required)?;
+    }
     Ok(())
+}
+
+/// Subquery plans embedded in the expressions of ONE plan node.
+fn node_subqueries(plan: &LogicalPlan) -> Vec<std::sync::Arc<LogicalPlan>> {
+    let mut out = Vec::new();
+    match plan {
+        LogicalPlan::Scan(n) => {
+            if let Some(f) = &n.filter {
+                expr_subqueries(f, &mut out);
+            }
+        }
+        LogicalPlan::Filter(n) => expr_subqueries(&n.predicate, &mut out),
+        LogicalPlan::Project(n) => n.exprs.iter().for_each(|e| expr_subqueries(e, &mut out)),
+        LogicalPlan::Aggregate(n) => n
+            .group_by
+            .iter()
+            .chain(n.aggregates.iter())
+            .for_each(|e| expr_subqueries(e, &mut out)),
+        LogicalPlan::Join(n) => {
+            for (l, r) in &n.on {
+                expr_subqueries(l, &mut out);
+                expr_subqueries(r, &mut out);
+            }
+            if let Some(f) = &n.filter {
+                expr_subqueries(f, &mut out);
+            }
+        }
+        LogicalPlan::Sort(n) => n
+            .order_by
+            .iter()
+            .for_each(|s| expr_subqueries(&s.expr, &mut out)),
+        LogicalPlan::Window(n) => {
+            for (_, w) in &n.window_exprs {
+                w.args
+                    .iter()
+                    .chain(w.partition_by.iter())
+                    .for_each(|e| expr_subqueries(e, &mut out));
+                w.order_by
+                    .iter()
+                    .for_each(|s| expr_subqueries(&s.expr, &mut out));
+            }
+        }
+        _ => {}
+    }
+    out
+}
+
+/// Subquery plans an expression carries, at any depth.
+fn expr_subqueries(e: &crate::planner::Expr, out: &mut Vec<std::sync::Arc<LogicalPlan>>) {
+    use crate::planner::Expr;
+    match e {
+        Expr::ScalarSubquery(p) => out.push(p.clone()),
+        Expr::Exists { subquery, .. } => out.push(subquery.clone()),
+        Expr::InSubquery { expr, subquery, .. } => {
+            expr_subqueries(expr, out);
+            out.push(subquery.clone());
+        }
+        Expr::BinaryExpr { left, right, .. } => {
+            expr_subqueries(left, out);
+            expr_subqueries(right, out);
+        }
+        Expr::UnaryExpr { expr, .. } | Expr::Cast { expr, .. } | Expr::Alias { expr, .. } => {
+            expr_subqueries(expr, out)
+        }
+        Expr::Aggregate { args, .. } | Expr::ScalarFunc { args, .. } => {
+            args.iter().for_each(|a| expr_subqueries(a, out))
+        }
+        Expr::Case {
+            operand,
+            when_then,
+            else_expr,
+        } => {
+            if let Some(o) = operand {
+                expr_subqueries(o, out);
+            }
+            for (w, t) in when_then {
+                expr_subqueries(w, out);
+                expr_subqueries(t, out);
+            }
+            if let Some(el) = else_expr {
+                expr_subqueries(el, out);
+            }
+        }
+        Expr::InList { expr, list, .. } => {
+            expr_subqueries(expr, out);
+            list.iter().for_each(|i| expr_subqueries(i, out));
+        }
+        Expr::Between {
+            expr, low, high, ..
+        } => {
+            expr_subqueries(expr, out);
+            expr_subqueries(low, out);
+            expr_subqueries(high, out);
+        }
+        _ => {}
+    }
 }
 
 /// Column names an expression mentions.
